@@ -31,8 +31,9 @@ const (
 )
 
 type lockKey struct {
-	db    *bolt.DB
+	db    any // the *bolt.DB (batch once keys) or the lock object itself
 	which int
+	rw    bool // a reader-writer lock: a waiting writer blocks new readers
 }
 
 // Task is one schedulable goroutine.
@@ -206,27 +207,45 @@ func (s *Sched) Yield(db *bolt.DB, point string) {
 
 // Lock is installed as bbolt's verifLock hook: probe before acquire.
 func (s *Sched) Lock(db *bolt.DB, which int, exclusive bool, try func() bool) {
+	s.LockObj(struct {
+		db    *bolt.DB
+		which int
+	}{db, which}, lockName(which), exclusive, which == bolt.VerifMmapLock, try)
+}
+
+// LockObj is installed as the hook of bbolt's self-probing lock types: called
+// inside every Lock/RLock of rwlock, metalock and mmaplock (wherever in the
+// code the acquisition is), before the real acquisition. Probe before acquire:
+// the task parks as blocked on that lock until try() would succeed; because
+// only one task runs at a time, probe-then-acquire is atomic.
+func (s *Sched) LockObj(obj any, name string, exclusive, rw bool, try func() bool) {
+	if name == "" {
+		name = "mutex"
+		if rw {
+			name = "rwmutex"
+		}
+	}
 	t := s.cur()
 	if t == nil {
-		if t = s.adopt("lock." + lockName(which)); t == nil {
+		if t = s.adopt("lock." + name); t == nil {
 			return
 		}
 	}
-	key := lockKey{db, which}
+	key := lockKey{db: obj, rw: rw}
 	s.mu.Lock()
 	t.try, t.key, t.excl = try, key, exclusive
-	if exclusive && which == bolt.VerifMmapLock {
+	if exclusive && rw {
 		s.pendingExcl[key]++
 	}
 	s.mu.Unlock()
 	for {
-		t.park(stLock, "lock."+lockName(which))
+		t.park(stLock, "lock."+name)
 		if s.lockFree(t) {
 			break
 		}
 	}
 	s.mu.Lock()
-	if exclusive && which == bolt.VerifMmapLock {
+	if exclusive && rw {
 		s.pendingExcl[key]--
 	}
 	t.try = nil
@@ -250,7 +269,7 @@ func (s *Sched) lockFree(t *Task) bool {
 	if t.try == nil {
 		return true
 	}
-	if !t.excl && t.key.which == bolt.VerifMmapLock {
+	if !t.excl && t.key.rw {
 		s.mu.Lock()
 		p := s.pendingExcl[t.key]
 		s.mu.Unlock()
@@ -284,7 +303,7 @@ func (s *Sched) OnceEnter(db *bolt.DB, seq int, busy func() bool) {
 	}
 	s.mu.Lock()
 	t.try = func() bool { return !busy() }
-	t.key = lockKey{db, 100 + seq}
+	t.key = lockKey{db: db, which: 100 + seq}
 	t.excl = true
 	s.mu.Unlock()
 	for {
